@@ -131,7 +131,23 @@ def classes(ident, sats, sigs, cells):
 
 
 def o_masks(case):
+    from pv.core import diagnostics
+
+    with diagnostics(bool(case.get("diag"))):
+        return _o_masks(case)
+
+
+def _o_masks(case):
     from pyrtcm import RTCMMessage
+
+    if case.get("after_failed"):
+        # an MSM message that is rejected part-way (cut inside its satellite / signal data) must leave nothing behind
+        junk = bytes.fromhex(case["after_failed"])
+        for cut in (len(junk) * 3 // 4, len(junk) // 2, 23):
+            try:
+                RTCMMessage(payload=junk[: max(3, cut)])
+            except Exception:  # pylint: disable=broad-except
+                pass
 
     ident = case["ident"]
     p = bytes.fromhex(case["payload"])
@@ -153,7 +169,7 @@ def o_masks(case):
             m = next(iter(RTCMReader(io.BytesIO(f), labelmsm=lm, validate=0 if via == "reader-novalidate" else 1, quitonerror=2)))[1]
     sats, sigs, cells = check_msm(ident, p, m, lm)
     nt, cls = classes(ident, sats, sigs, cells)
-    return Res(nontrivial=nt, classes=cls + [f"labelmsm{lm}", "via-" + via])
+    return Res(nontrivial=nt, classes=cls + [f"labelmsm{lm}", "via-" + via] + (["after-failed-msm-parse"] if case.get("after_failed") else []) + (["diagnostics-on"] if case.get("diag") else []))
 
 
 def msm_messages(ident, profile="small"):
@@ -165,7 +181,9 @@ def plan_masks(tier, shard, nshards):
     n = 120 if tier == "quick" else 2000
 
     def strat(i):
-        return st.builds(lambda c, lm, via: {**c, "labelmsm": lm, "via": via}, msm_messages(i), st.sampled_from([1, 2]), st.sampled_from(["ctor", "ctor", "static", "reader", "reader-novalidate"]))
+        base = st.builds(lambda c, lm, via, d: {**c, "labelmsm": lm, "via": via, "diag": d}, msm_messages(i), st.sampled_from([1, 2]), st.sampled_from(["ctor", "ctor", "static", "reader", "reader-novalidate"]), st.booleans())
+        other = st.sampled_from(pins.msm_ids()).flatmap(lambda j: gen.messages(j, "small")).map(lambda c: c["payload"])
+        return st.one_of(base, base, st.builds(lambda c, o: {**c, "after_failed": o}, base, other))
 
     return [(i, strat(i), n) for i in ids]
 
@@ -230,7 +248,7 @@ SUBS = [
         plan=plan_masks,
         enum=e_all,
         rule="see property rule; single-bit satellite x signal masks enumerated per constellation",
-        need={"empty-sat-mask": 1, "empty-sig-mask": 1, "sat-id-64": 1, "sig-id-32": 1, "reserved-or-out-of-range-id": 1, "cell-with-undefined-signal": 1, "cells>=10": 1, "cell-mask-exactly-64-bits": 1},
+        need={"empty-sat-mask": 1, "empty-sig-mask": 1, "sat-id-64": 1, "sig-id-32": 1, "reserved-or-out-of-range-id": 1, "cell-with-undefined-signal": 1, "cells>=10": 1, "cell-mask-exactly-64-bits": 1, "after-failed-msm-parse": 1, "diagnostics-on": 1},
         sample=_short,
     ),
 ]
